@@ -138,3 +138,37 @@ Fixpoint run (prefix : list byte) (w : writer) (calls : list (list byte * option
       let '(rs, out) := run prefix (w_state r) rest in
       ((w_n r, w_err r) :: rs, w_out r ++ out)
   end.
+
+(* ---- two indenting writers stacked: upper = NewWriter(lower, p2), lower = NewWriter(s, p1).
+   The bottom writer s is scripted as above.  An *iw holds no reference to the state of the
+   writer beneath it, so (re)creating the upper writer only resets its own flag. *)
+Inductive op2 :=
+| OLower (buf : list byte) (acc : option Z)
+| OUpper (buf : list byte) (acc : option Z)
+| ONew.
+
+Definition WriteUpper (p1 p2 : list byte) (w1 w2 : writer) (buf : list byte) (acc : option Z)
+  : (Z * bool) * list byte * (writer * writer) :=
+  match w2, buf with
+  | Ind _, [] => ((0%Z, false), [], (w1, w2))            (* returns before touching the lower writer *)
+  | _, _ =>
+      let joined := w_out (Write p2 w2 buf None) in
+      let r1 := Write p1 w1 joined acc in
+      let r2 := Write p2 w2 buf (if w_err r1 then Some (w_n r1) else None) in
+      ((w_n r2, w_err r2), w_out r1, (w_state r1, w_state r2))
+  end.
+
+Fixpoint run2 (p1 p2 : list byte) (w1 w2 : writer) (ops : list op2)
+  : list (Z * bool) * list byte :=
+  match ops with
+  | [] => ([], [])
+  | OLower buf acc :: rest =>
+      let r := Write p1 w1 buf acc in
+      let '(rs, out) := run2 p1 p2 (w_state r) w2 rest in
+      ((w_n r, w_err r) :: rs, w_out r ++ out)
+  | OUpper buf acc :: rest =>
+      let '(res, o, (w1', w2')) := WriteUpper p1 p2 w1 w2 buf acc in
+      let '(rs, out) := run2 p1 p2 w1' w2' rest in
+      (res :: rs, o ++ out)
+  | ONew :: rest => run2 p1 p2 w1 (NewWriter p2) rest
+  end.
